@@ -13,6 +13,7 @@ def run_case(case):
     from pamiq_core.interaction import Interaction
 
     log = []
+    mixups = []
     cur = {"i": None}
 
     class ScriptEnv(gymnasium.Env):
@@ -38,6 +39,8 @@ def run_case(case):
             self.k = 0
 
         def on_reset(self, obs, info):
+            if not (isinstance(info, dict) and info.get("kind") == "reset" and obs[0] == "R" and info.get("n") == obs[1]):
+                mixups.append(["onreset", list(obs), info])      # the info dictionary must be the one that came with this observation
             log.append(["onreset", obs[1] if obs[0] == "R" else -1])
             if cur["i"] and cur["i"]["rreq"]:
                 log.append(["req"]); self.need_reset = True
@@ -46,6 +49,8 @@ def run_case(case):
             return a
 
         def on_step(self, obs, reward, terminated, truncated, info):
+            if not (isinstance(info, dict) and info.get("kind") == "step" and obs[0] == "S" and info.get("n") == obs[1] and reward == 1):
+                mixups.append(["onstep", list(obs), info])
             log.append(["onstep", obs[1] if obs[0] == "S" else -1, bool(terminated), bool(truncated)])
             if cur["i"] and cur["i"]["sreq"]:
                 log.append(["req"]); self.need_reset = True
@@ -63,7 +68,7 @@ def run_case(case):
     for i in case["steps"]:
         cur["i"] = i
         inter.step()
-    return {"log": log}
+    return {"log": log, "mixups": mixups[:5]}
 
 
 def main():
